@@ -226,15 +226,26 @@ func groupPullBody(name, trait string, st group.ExecutionStrategy, members []str
 			go cancel()
 		}
 		var err error
+		sendFailed := false
 		switch trait {
 		case "light":
 			g := lightpb.NewGroup(f, members...)
 			g.ReadExecution = st
-			err = g.PullBrightness(&traits.PullBrightnessRequest{Name: "group"}, &failingSubscriber[traits.PullBrightnessResponse]{ctx: ctx, failAt: failAt})
+			sub := &failingSubscriber[traits.PullBrightnessResponse]{ctx: ctx, failAt: failAt}
+			err = g.PullBrightness(&traits.PullBrightnessRequest{Name: "group"}, sub)
+			sendFailed = failAt > 0 && sub.sent >= failAt
 		case "onoff":
 			g := onoffpb.NewGroup(f, members...)
 			g.ReadExecution = st
-			err = g.PullOnOff(&traits.PullOnOffRequest{Name: "group"}, &failingSubscriber[traits.PullOnOffResponse]{ctx: ctx, failAt: failAt})
+			sub := &failingSubscriber[traits.PullOnOffResponse]{ctx: ctx, failAt: failAt}
+			err = g.PullOnOff(&traits.PullOnOffRequest{Name: "group"}, sub)
+			sendFailed = failAt > 0 && sub.sent >= failAt
+		}
+		// a Send that fails decides the call: the members are told to stop and the call returns - then, not when the
+		// subscriber's own context happens to end (here: an hour of virtual time later, which only passes once
+		// nothing else can move)
+		if sendFailed && ctx.Err() != nil {
+			verifrt.Logf("FAIL group-pull-returns-late %s ## the subscriber's Send failed, but the call returned only after the subscriber's context had ended (%v): the members were never told to stop", name, ctx.Err())
 		}
 		verifrt.WaitIdle()
 		if a := verifrt.Alive(); len(a) > 0 {
